@@ -63,7 +63,11 @@ def run_case(case, reports=False, keep_objects=False):
     from behave.formatter.base import Formatter
     from behave.formatter._registry import make_formatters
     from behave.reporter.base import Reporter
-    from behave.api.pending_step import StepNotImplementedError
+    from behave.api.pending_step import StepNotImplementedError, PendingStepError
+
+    class _AppError(Exception):
+        pass
+    ERROR_CLASSES = (RuntimeError, NotImplementedError, KeyError, _AppError, OSError, ZeroDivisionError)
     from behave.model import Scenario, ScenarioOutline
     import parse as parse_mod
 
@@ -218,7 +222,7 @@ def run_case(case, reports=False, keep_objects=False):
                 def cfun(cid=cid, raises=raises):
                     events.append(_ev("cleanup", cid=cid, raised=raises))
                     if raises:
-                        raise RuntimeError("cleanup%d" % cid)
+                        raise RuntimeError("cleanup%d: disk is 100%% full {0} %%s {x}" % cid)     # (format-hostile text)
                 if s["cl_layer"]:
                     ctx.add_cleanup(cfun, layer=s["cl_layer"])
                 else:
@@ -241,9 +245,11 @@ def run_case(case, reports=False, keep_objects=False):
             if o == "fail":
                 assert False, "M%d_%d" % (sid, pos)
             if o == "error":
-                raise RuntimeError("X%d_%d" % (sid, pos))
+                # any Exception class is an error: rotate through unrelated classes (NotImplementedError is NOT "pending")
+                raise ERROR_CLASSES[(sid + pos) % len(ERROR_CLASSES)]("X%d_%d" % (sid, pos))
             if o == "pending":
-                raise StepNotImplementedError("P%d_%d" % (sid, pos))
+                # both public "not implemented yet" exceptions mean pending
+                raise (StepNotImplementedError, PendingStepError)[(sid + pos) % 2]("P%d_%d" % (sid, pos))
             if o == "kbd":
                 raise KeyboardInterrupt()
             if o == "skip":
@@ -352,6 +358,8 @@ def run_case(case, reports=False, keep_objects=False):
                 att = 0
                 if nm == "before_all" and cfg.get("logclear") and mark not in root.handlers:
                     root.addHandler(mark)
+                if nm == "before_all" and cfg.get("rootlvl0"):
+                    root.setLevel(logging.NOTSET)
                 if el and elems[el - 1]["kind"] == "scenario":
                     att = attempts.get(el, 1)
                 events.append(_ev("hook", name=nm, el=el, tag=tag, n=hookn[0], raised=raised, pos=pos, att=att, **probe(ctx)))
@@ -368,11 +376,19 @@ def run_case(case, reports=False, keep_objects=False):
                     def hook_cleanup(cid=500 + hookn[0]):
                         events.append(_ev("cleanup", cid=cid, raised=False))
                     ctx.add_cleanup(hook_cleanup)
-                if [nm, el] in skips:
-                    a[0].skip("excluded by %s hook" % nm)       # the hook excludes its element at run time
+                for sk in skips:
+                    if sk[0] == nm and sk[1] == el:
+                        tgt = sk[2] if len(sk) > 2 else el
+                        if tgt == el:
+                            a[0].skip("excluded by %s hook" % nm)       # the hook excludes its element at run time
+                        else:       # "skip the rest": skip() on the enclosing feature / rule
+                            (ctx.feature if elems[tgt - 1]["kind"] == "feature" else ctx.rule).skip("rest skipped by %s hook" % nm)
                 if cfg.get("observe") and nm in ("after_scenario", "after_step", "before_scenario"):
                     # an observing hook: reads the status of the running feature (must not change any result)
                     getattr(ctx.feature, "status", None)
+                if cfg.get("observe") and nm in ("after_feature", "after_rule", "after_tag") and a:
+                    # ... and the after hooks of containers read their own element's status (e.g. to log the outcome)
+                    getattr(a[0] if nm != "after_tag" else tag_owner(ctx), "status", None)
                 if raised:
                     if fault_kind == "kbd":
                         # (not modelled by Run.tla: only for checks that judge final statuses / reports)
